@@ -233,6 +233,7 @@ public:
             RefIter & r = w.ri[z]; r.live = true; r.back = (z == 1); r.saved = false; r.cursor = (RFind(w.m[T], pk) >= 0) ? pk : -1; r.owner = (r.cursor >= 0) ? T : -1;
          }
       }
+      if (checkEveryStep) { std::string cm, ck; if (!CheckAll(w, true, cm, ck)) fprintf(stderr, "start state %s violates the oracle: %s %s\n", StartName(s).c_str(), ck.c_str(), cm.c_str()); }
    }
 
    // Oracle scheduling.  SEQX replays the whole history for every transition; all histories of one BFS level have the same length and every proper
